@@ -2994,6 +2994,9 @@ static void AssembleFile_InitPass(void) {
     SetFlag(&SupAllowed, SupAllowedSymName, DefSupAllowed);
     SetFlag(&FPUAvail, FPUAvailName, False);
     SetFlag(&Maximum, MaximumName, False);
+    SetFlag(&DottedStructs, DottedStructsName, False);
+    RadixBase    = 10;
+    OutRadixBase = 16;
     SetFlag(&DoBranchExt, BranchExtName, False);
     strmaxcpy(TmpCompStr, ListOnName, sizeof(TmpCompStr));
     EnterIntSymbol(&TmpComp, ListOn = 1, SegNone, True);
